@@ -1157,18 +1157,22 @@ func (envs *Manager) handleDeviceEvent(evt event.DeviceEvent) {
 				WithField("envState", env.CurrentState()).
 				WithField(infologger.Level, infologger.IL_Support).
 				Debug("received TASK_INTERNAL_ERROR event from task, trying to stop the run")
-			if env.CurrentState() == "RUNNING" {
-				go func() {
-					t.GetParent().UpdateState(sm.ERROR)
-					err = env.TryTransition(NewStopActivityTransition(envs.taskman))
-					if err != nil {
-						log.WithPrefix("scheduler").
-							WithField("partition", envId.String()).
-							WithError(err).
-							Error("cannot stop run after END_OF_STREAM event")
-					}
-				}()
-			}
+			// The role of the task learns about the error whatever the state of the environment: if the task is
+			// critical the workflow goes to ERROR and the environment follows. A run is only stopped for a critical task.
+			stopTheRun := env.CurrentState() == "RUNNING" && t.GetParent().GetTaskTraits().Critical
+			go func() {
+				t.GetParent().UpdateState(sm.ERROR)
+				if !stopTheRun {
+					return
+				}
+				err = env.TryTransition(NewStopActivityTransition(envs.taskman))
+				if err != nil {
+					log.WithPrefix("scheduler").
+						WithField("partition", envId.String()).
+						WithError(err).
+						Error("cannot stop run after END_OF_STREAM event")
+				}
+			}()
 		}
 
 	}
